@@ -736,6 +736,8 @@ func (env *SpecEnv) quant(x *EQuant) SVal {
 				env.vars[n] = v
 			} else if v, has := env.skolems[n]; has {
 				env.vars[n] = v
+			} else if v, has := env.skolems["*"]; has && len(x.Vars) == 1 && x.Types[i] == "int" {
+				env.vars[n] = v
 			} else {
 				ok = false
 			}
@@ -1209,21 +1211,17 @@ func (env *SpecEnv) havocArrayRange(post *State, base Term, et types.Type, lo, h
 	ex := env.ex
 	es, ok := ex.cx.sortOf(et)
 	if !ok {
-		// array of structs: havoc the field heaps at elem(base, *)
+		// array of structs: havoc the (nested) field heaps at elem(base, *)
 		if stt, ok := et.Underlying().(*types.Struct); ok {
-			for i := 0; i < stt.NumFields(); i++ {
-				f := stt.Field(i)
-				fs, ok := ex.cx.sortOf(f.Type())
-				if !ok {
-					ex.cx.unsup("modifies: nested aggregate %s", f.Name())
-					continue
-				}
+			ex.leafFields(stt, 0, func(f *types.Var, depth int) {
+				fs, _ := ex.cx.sortOf(f.Type())
 				name := ex.fieldHeapName(f)
 				h := ex.heap(post, name, arrSort(SRef, fs))
 				nh := ex.freshHeap("hm_", name, h.Sort)
-				ex.cx.assume(Term{fmt.Sprintf("(forall ((r!z Ref)) (! (=> (not (and ((_ is elem) r!z) (= (ebase r!z) %s))) (= (select %s r!z) (select %s r!z))) :pattern ((select %s r!z))))", base.S, nh.S, h.S, nh.S), SBool})
+				m := elemMatch(Term{"r!z", SRef}, Term{base.S, fmt.Sprintf("Ref#%d", depth)})
+				ex.cx.assume(Term{fmt.Sprintf("(forall ((r!z Ref)) (! (=> (not %s) (= (select %s r!z) (select %s r!z))) :pattern ((select %s r!z))))", m.S, nh.S, h.S, nh.S), SBool})
 				ex.setHeap(post, name, nh)
-			}
+			})
 		}
 		return
 	}
@@ -1358,12 +1356,13 @@ func (ex *Exec) heapsOfLvalue(fc *FuncContract, m Expr) map[string]string {
 		if bt == nil {
 			return nil
 		}
-		pt, ok := bt.Underlying().(*types.Pointer)
-		if !ok {
-			return nil
+		var stt *types.Struct
+		if pt, ok := bt.Underlying().(*types.Pointer); ok {
+			stt, _ = pt.Elem().Underlying().(*types.Struct)
+		} else {
+			stt, _ = bt.Underlying().(*types.Struct) // nested struct field
 		}
-		stt, ok := pt.Elem().Underlying().(*types.Struct)
-		if !ok {
+		if stt == nil {
 			return nil
 		}
 		for i := 0; i < stt.NumFields(); i++ {
